@@ -20,6 +20,12 @@ pub const SETUP: &str = "
 (define log (vector 0 0 0))
 (define u 0)
 (define (note i x) (vector-set! log i x) x)
+(define (sl-many n acc) (if (< n 1) acc (sl-many (- n 1) (note 2 n) 'extra)))
+(define (sl-few n acc) (if (< n 1) acc (sl-few (- n 1))))
+(define (sl-rest n . r) (if (< n 1) r (sl-rest)))
+(define (ma n) (if (< n 1) 0 (mb (- n 1) 1)))
+(define (mb n) (ma (- n 1)))
+(define (mk-loop k) (lambda (n) (if (< n 1) k ((mk-loop (+ k 1)) (- n 1) k))))
 ";
 
 /// (fault kind, expression text, is the faulting operation itself a procedure call that can sit
@@ -40,6 +46,12 @@ pub fn faults() -> Vec<(&'static str, &'static str)> {
         ("arity-few-rest", "(fr)"),
         ("arity-lambda", "((lambda (a b) a) 1)"),
         ("arity-lambda", "((lambda (a) a) 1 2)"),
+        // the faulty call is a tail call of a later round of a trampoline run (self, mutual, new closure)
+        ("arity-self-tail-later-round", "(sl-many 2 0)"),
+        ("arity-self-tail-later-round", "(sl-few 2 0)"),
+        ("arity-self-tail-later-round", "(sl-rest 1)"),
+        ("arity-self-tail-later-round", "(ma 3)"),
+        ("arity-self-tail-later-round", "((mk-loop 0) 2)"),
         ("arity-builtin-few", "(car)"),
         ("arity-builtin-few", "(cons 1)"),
         ("arity-builtin-few", "(vector-ref v0)"),
@@ -97,6 +109,9 @@ pub fn contexts(f: &str) -> Vec<(&'static str, String, String)> {
         ("tail-cond", format!("(define (p c) (cond (c {}) (else 0)))", f), "(p 1)".to_string()),
         ("tail-let", format!("(define (p) (let ((w 1)) {}))", f), "(p)".to_string()),
         ("tail-after-effects", format!("(define (p) (note 0 'before) {})", f), "(p)".to_string()),
+        ("tail-loop-third-round", format!("(define (p n) (if (< n 1) {} (p (- n 1))))", f), "(p 2)".to_string()),
+        ("tail-mutual-loop", format!("(define (p n) (if (< n 1) {} (q n)))\n(define (q n) (p (- n 1)))", f), "(p 2)".to_string()),
+        ("non-tail-recursion-base", format!("(define (p n) (if (< n 1) {} (list (p (- n 1)))))", f), "(p 2)".to_string()),
         ("apply-thunk", String::new(), format!("(apply (lambda () {}) '())", f)),
         ("map-callback", String::new(), format!("(map (lambda (i) {}) '(1 2))", f)),
         ("for-each-callback", String::new(), format!("(for-each (lambda (i) (note 1 i) {}) '(1 2))", f)),
